@@ -23,6 +23,19 @@ CLAIMED = {
         design='6/C10', technique='Coq proof over Reals/Coquelicot + in-Coq differential correspondence'),
 }
 
+CLAIMED['C01'] = dict(
+    text=('Theorems over the real-number instance of the Gallina model of log_pdf_to_affiliation (one observation column, '
+          'any K): overflow guard (shifted exponentials in (0,1], one equals 1), validity (range, sum to one, exact zeros for '
+          'inactive sources) whenever the tiny floor is not active, sufficient condition for the floor being inactive, the '
+          'floored branch stated explicitly, Bayes rule, clipping bound K*eps; mixture-weight updates (mean / saliency) are '
+          'distributions; initializer tails (iid normalisation, flag exactness for every minimum in (0,1/K), deflation '
+          'normaliser >= 1). Tie to /repo on every run: the routine itself, predict of all seven mixture models (fed with the '
+          "implementation's own component log_pdf and stored weights, all tying / saliency / mask / eps / covariance options, "
+          '1..3 EM iterations), and the initializers are compared column by column with the model inside Coq; independent NumPy '
+          'predicates (shape, finite, range, normalisation, mask zeros, Bayes via logsumexp) run on regular and degenerate '
+          'streams and on every in-loop E-step. NaN/Inf freedom in binary64 is explored, not proved.'),
+    design='6/C01', technique='Coq proof over Reals + in-Coq differential correspondence + predicate search')
+
 NOT_YET = {}
 
 
